@@ -55,4 +55,28 @@ theorem boundary_of_prefix (d : Doc) (hwf : WF d) (q s : List Char) (h : join d 
           have := len8_pos_of_ne_nil hc
           exact ⟨by rw [hl]; simp; omega, q, c, hl, rfl⟩
 
+theorem len8_join_take (d : Doc) (ln : Nat) (l : Line) (h : d[ln]? = some l) :
+    len8 ((d.take ln).flatMap (·.chars)) + len8 l.chars ≤ len8 (join d) := by
+  induction d generalizing ln with
+  | nil => simp at h
+  | cons x rest ih =>
+    cases ln with
+    | zero => simp at h; subst h; simp [join, len8]
+    | succ k =>
+      have := ih k (by simpa using h)
+      simp [join, List.take_succ_cons, List.flatMap_cons]; omega
+
+theorem len8_dropLast_le (cs : List Char) : len8 cs.dropLast ≤ len8 cs := by
+  induction cs with
+  | nil => simp [len8]
+  | cons c cs ih =>
+    cases cs with
+    | nil => simp [len8]
+    | cons c' cs' => simp only [List.dropLast_cons_cons, len8] at *; omega
+
+theorem len8_reach_le (l : Line) : len8 l.reach ≤ len8 l.chars := by
+  unfold Line.reach; split
+  · exact len8_dropLast_le _
+  · exact Nat.le_refl _
+
 end Text
